@@ -940,6 +940,12 @@ func dirCacheNames(t *testing.T, m *mon.M, px *caProxy, batchTag string) {
 		o := e.call(in, "both", true)
 		judgeCall(m, e, o, nil, "dircache")
 		m.Count("dircache_names", 1)
+		if in.Expect == "" {
+			m.Count("hostile_names_tried", 1)
+			if o.cert != nil {
+				m.Count("hostile_names_normalised_and_served", 1)
+			}
+		}
 		// nothing may appear outside outer/cache
 		var stray []string
 		filepath.Walk(outer, func(p string, info os.FileInfo, err error) error {
